@@ -117,6 +117,47 @@ impl<'a> HashCheck<'a> {
                 variants.push((format!("en-passant target -> {:?}", t.map(crate::refchess::sq_name)), q));
             }
         }
+        // two components at once, where one could stand in for the other: an en-passant target
+        // together with the content of that square and of the squares in front of and behind it (a
+        // target keyed like a man on the square), a castling right together with the content of its
+        // king's and rook's home squares
+        let mut all_contents: Vec<Option<(Side, Kind)>> = vec![None];
+        for side in [Side::W, Side::B] {
+            for k in KINDS {
+                all_contents.push(Some((side, k)));
+            }
+        }
+        for t in (16..24u8).chain(40..48u8).map(Some).chain(std::iter::once(None)) {
+            if t == p.ep {
+                continue;
+            }
+            let around: Vec<usize> = match t.or(p.ep) {
+                Some(x) => vec![x as usize, x as usize + 8, x as usize - 8],
+                None => vec![],
+            };
+            for s in around {
+                for c in &all_contents {
+                    if *c != p.sq[s] {
+                        let mut q = p.clone();
+                        q.ep = t;
+                        q.sq[s] = *c;
+                        variants.push((format!("en-passant target -> {:?} and square {} -> {:?}", t.map(crate::refchess::sq_name), crate::refchess::sq_name(s as u8), c), q));
+                    }
+                }
+            }
+        }
+        for (i, homes) in [[4usize, 7], [4, 0], [60, 63], [60, 56]].iter().enumerate() {
+            for s in homes {
+                for c in &all_contents {
+                    if *c != p.sq[*s] {
+                        let mut q = p.clone();
+                        q.castle[i] = !q.castle[i];
+                        q.sq[*s] = *c;
+                        variants.push((format!("castling right {} toggled and square {} -> {:?}", ["K", "Q", "k", "q"][i], crate::refchess::sq_name(*s as u8), c), q));
+                    }
+                }
+            }
+        }
         for (what, q) in variants {
             // perturbed positions need not be valid: the hash is a total function of the board
             let qb = match eng::board_of(&q) {
